@@ -11,6 +11,7 @@ mutations of it are run through the real library; the recorded rows are validate
 """
 import json
 import random
+import zlib
 
 import glom
 from glom import Match
@@ -23,7 +24,10 @@ PROP = 'C09'
 DEFAULT = 77
 
 
-def run_case(pattern, tree):
+SLOW_EVERY = 1      # failing cases: verify() / matches() (two more full error paths) on every n-th case
+
+
+def run_case(pattern, tree, full=True):
     """Run the real library on one case; returns the observation record."""
     target = B.tree_py(tree)
     before = B.snapshot(target)
@@ -36,8 +40,9 @@ def run_case(pattern, tree):
         raise vlib.MachineryError('cannot build the pattern %r: %r' % (pattern, e))
     obs = {}
     obs['glom'] = B.observe(lambda: glom.glom(target, Match(specs[0])))
-    obs['verify'] = B.observe(lambda: Match(specs[1]).verify(target))
-    obs['matches'] = B.observe(lambda: Match(specs[2]).matches(target))
+    if full or obs['glom']['ok']:
+        obs['verify'] = B.observe(lambda: Match(specs[1]).verify(target))
+        obs['matches'] = B.observe(lambda: Match(specs[2]).matches(target))
     obs['default'] = B.observe(lambda: glom.glom(target, Match(specs[3], default=DEFAULT)))
     obs['unchanged'] = B.snapshot(target) == before
     return obs
@@ -66,12 +71,14 @@ def judge(pred, obs):
     bad = []
     for call, what, oo in (('glom', 'glom(t, Match(p))', o), ('verify', 'Match(p).verify(t)', o),
                            ('default', 'glom(t, Match(p, default=77))', od)):
-        w = judge_outcome(oo, obs[call], what)
-        if w:
-            bad.append((call, w))
-    m = obs['matches']
-    if not m['ok'] or m['res'] is not o['ok']:
-        bad.append(('matches', 'Match(p).matches(t) gave %s, predicted %s' % (m.get('res', m.get('cls')), o['ok'])))
+        if call in obs:
+            w = judge_outcome(oo, obs[call], what)
+            if w:
+                bad.append((call, w))
+    if 'matches' in obs:
+        m = obs['matches']
+        if not m['ok'] or m['res'] is not o['ok']:
+            bad.append(('matches', 'Match(p).matches(t) gave %s, predicted %s' % (m.get('res', m.get('cls')), o['ok'])))
     if not obs['unchanged']:
         bad.append(('unchanged', 'target modified'))
     return bad
@@ -82,7 +89,15 @@ def nontrivial(st):
 
 
 def worker(states):
-    out = dict(n=0, cases=0, nontrivial=0, amb=0, ok=0, fail=0, tme=0, foreign=0, bad=[], samples=[])
+    try:
+        return _worker(states)
+    except Exception:            # an exception escaping a pool worker would hang the pool
+        import traceback
+        return dict(error=traceback.format_exc())
+
+
+def _worker(states):
+    out = dict(n=0, cases=0, nontrivial=0, amb=0, ok=0, fail=0, tme=0, foreign=0, bad=[], samples=[], by_op={})
     for st in states:
         if st.get('phase') != 2:
             continue
@@ -92,14 +107,17 @@ def worker(states):
             out['amb'] += 1
         if nontrivial(st):
             out['nontrivial'] += 1
+        cnt = out['by_op'].setdefault(st['pattern']['op'], [0, 0])
+        cnt[0 if pred['o']['ok'] else 1] += 1
         if pred['o']['ok']:
             out['ok'] += 1
         else:
             out['fail'] += 1
             out['tme'] += 'TypeMatchError' in pred['o']['errs']
             out['foreign'] += 'TypeError' in pred['o']['errs']
-        obs = run_case(st['pattern'], st['target'])
-        out['n'] += 4
+        full = SLOW_EVERY == 1 or zlib.crc32(json.dumps([st['pattern'], st['target']], sort_keys=True).encode()) % SLOW_EVERY == 0
+        obs = run_case(st['pattern'], st['target'], full)
+        out['n'] += len(obs) - 1
         if len(out['samples']) < 1 and nontrivial(st) and pred['o']['ok']:
             out['samples'].append(dict(pattern=st['pattern'], target=st['target'], pred=pred))
         for call, why in judge(pred, obs):
@@ -109,7 +127,7 @@ def worker(states):
 
 
 # ---- code -> spec -----------------------------------------------------------------------------
-def record_row(pattern, tree):
+def record_row(pattern, tree, how=''):
     obs = run_case(pattern, tree)
     cells, root = B.tree_cells(tree)
 
@@ -118,7 +136,7 @@ def record_row(pattern, tree):
             return {'ok': True, 'v': B.py_tree(ob['res']), 'cls': '', 'site': ''}
         return {'ok': False, 'v': {'k': 'none'}, 'cls': ob['cls'], 'site': ob['site']}
     g = obs['glom']
-    row = dict(heap=cells, root=root, pattern=pattern,
+    row = dict(heap=cells, root=root, pattern=pattern, how=how,
                obs=dict(glom=enc(g), verify=enc(obs['verify']), default=enc(obs['default']),
                         matches=bool(obs['matches'].get('res')) if obs['matches']['ok'] else False,
                         matches_raised=not obs['matches']['ok'],
@@ -130,9 +148,9 @@ def record_row(pattern, tree):
 
 def record(check, n, seed):
     rng = random.Random(seed)
-    rows = []
+    inputs = []
     kinds = dict(conforming=0, mutated=0, unrelated=0)
-    while len(rows) < n:
+    while len(inputs) < n:
         p = G.gen_pattern(rng, rng.randint(1, 4))
         t = G.conforming(rng, p)
         if t is None:
@@ -149,11 +167,11 @@ def record(check, n, seed):
                 t = G.rand_tree(rng, 2)
                 kind = 'unrelated'
         kinds[kind] += 1
-        row = record_row(p, t)
-        row['kind'] = kind
-        rows.append(row)
+        inputs.append((p, t, kind))
+    rows = B.pmap(record_row, inputs)
     rejects = vlib.validate_rows(check, 'Trace_C09', rows, 'random-patterns', chunk=4000)
     for row, rej in rejects:
+        row['_rejected'] = True
         check.violation(dict(kind='code->spec', row=row, clause=rej['clause']),
                         'recorded execution rejected by the specification: clause %s' % rej['clause'],
                         matcher=match_finding)
@@ -162,77 +180,83 @@ def record(check, n, seed):
     for row in rows[:2]:
         check.sample(dict(kind='recorded', **row), limit=6)
     if nconf < len(rows) // 10 or nconf > len(rows) * 9 // 10:
-        raise vlib.MachineryError('recorded rows are one-sided: %d of %d succeed' % (nconf, len(rows)))
+        check.extra.setdefault('problems', []).append('recorded rows are one-sided: %d of %d succeed' % (nconf, len(rows)))
     return rows
 
 
-def corrupt_selftest(rows):
-    """A recorded row with one corrupted observation must be rejected by Trace_C09."""
+def corrupt_selftest(check, rows):
+    """A recorded row (accepted as recorded) with one corrupted observation must be rejected by
+    Trace_C09."""
     for row in rows:
-        if row['obs']['glom']['ok'] and row['obs']['glom']['v']['k'] == 'c':
+        if not row.get('_rejected') and row['obs']['glom']['ok'] and row['obs']['glom']['v']['k'] == 'c':
             bad = json.loads(json.dumps(row))
             bad['obs']['glom']['ok'] = False
             bad['obs']['glom']['cls'] = 'MatchError'
             bad['obs']['glom']['v'] = {'k': 'none'}
             tmp = vlib.Check(PROP, 'selftest', 0)
             rej = vlib.validate_rows(tmp, 'Trace_C09', [row, bad], 'corrupt')
-            if [r is bad for r, _ in rej] != [True]:
+            check.extra['corrupted_row_rejected'] = [j['clause'] for r, j in rej if r is bad]
+            if [r is bad for r, _ in rej] != [True] and not check.violations:
                 raise vlib.MachineryError('corrupted recorded row not rejected (rejects=%r)' % ([j for _, j in rej],))
             return
-    raise vlib.MachineryError('no row to corrupt')
+    if not check.violations:
+        raise vlib.MachineryError('no row to corrupt')
 
 
 def match_finding(f, case):
-    """Known findings are identified by the raising function (call site), the observed class and
-    the class the law asks for -- nothing else about the case may disagree."""
-    m = f.get('match', {})
-    if m.get('kind') != 'wrong-error-class':
-        return False
-    if case['kind'] == 'spec->code':
-        if case['call'] not in ('glom', 'verify'):
-            return False
-        ob = case['obs'][case['call']]
-        permitted = case['pred']['o']['errs']
-    else:
-        if case['clause'] not in ('errclass', 'verify-errclass'):
-            return False
-        ob = case['row']['obs']['verify' if case['clause'].startswith('verify') else 'glom']
-        permitted = [m['permitted']]      # the trace module rejected the class; the site and class identify it
-    return (not ob['ok'] and ob['site'] == m['site'] and ob['cls'] == m['observed']
-            and m['permitted'] in permitted)
+    """No known finding is open for C09 (Not raising a bare GlomError is repaired in the repository
+    and lives on as the spec mutant not_glomerror); any disagreement is a VIOLATION."""
+    return False
 
 
 MUTANTS = [('opt_default_always', ('Result', 'Unchanged', 'Decides')), ('dict_try_later', ('Decides',)),
-           ('required_ignored', ('Decides',)), ('type_exact', ('Decides',))]
+           ('required_ignored', ('Decides',)), ('type_exact', ('Decides',)),
+           ('not_glomerror', ('ErrClass',))]      # glom's behaviour before its repair
 
 
 def main(tier, seed):
     check = vlib.Check(PROP, tier, seed)
     B.check_tables()
-    consts = {'quick': dict(TDepth=2, PDepth=1, Wide='FALSE'),
-              'thorough': dict(TDepth=2, PDepth=3, Wide='TRUE')}[tier]
-    consts['Mutant'] = '"none"'
-    res, results = vlib.map_states('MC_C09', worker, constants=consts)
-    check.add_tlc(res, 'MC_C09 %s' % consts)
+    problems = check.extra.setdefault('problems', [])      # machinery complaints; fatal unless a violation is reported
+    universes = {'quick': [dict(TDepth=2, PDepth=1, Wide='FALSE')],
+                 'thorough': [dict(TDepth=2, PDepth=3, Wide='FALSE'), dict(TDepth=1, PDepth=1, Wide='TRUE')]}[tier]
+    global SLOW_EVERY
+    SLOW_EVERY = {'quick': 4, 'thorough': 3}[tier]
+    results = []
+    for consts in universes:
+        consts['Mutant'] = '"none"'
+        res, rs = vlib.map_states('MC_C09', worker, constants=consts)
+        check.add_tlc(res, 'MC_C09 %s' % consts)
+        results += rs
     tot = dict(amb=0, ok=0, fail=0, tme=0, foreign=0, cases=0)
+    by_op = {}
     for r in results:
+        if 'error' in r:
+            raise vlib.MachineryError('replay worker failed:\n' + r['error'])
         check.cov['evaluations'] += r['n']
         check.cov['distinct_nontrivial'] += r['nontrivial']
         check.validated(r['cases'] - r['amb'] - len({json.dumps([b['case']['pattern'], b['case']['target']], sort_keys=True)
                                                     for b in r['bad']}))
         for k in tot:
             tot[k] += r[k]
+        for op, (a, b) in r['by_op'].items():
+            c = by_op.setdefault(op, [0, 0])
+            c[0] += a
+            c[1] += b
         for s in r['samples']:
             check.sample(s)
         for b in r['bad']:
             check.violation(b['case'], b['why'], matcher=match_finding)
     check.extra['cases'] = dict(total=tot['cases'], predicted_success=tot['ok'], predicted_failure=tot['fail'],
                                 typematcherror_permitted=tot['tme'], foreign_typeerror=tot['foreign'],
-                                not_compared_order_dependent=tot['amb'])
-    if min(tot['ok'], tot['fail'], tot['tme']) == 0:
-        raise vlib.MachineryError('vacuous universe: %r' % (tot,))
-    rows = record(check, {'quick': 6000, 'thorough': 60000}[tier], seed)
-    corrupt_selftest(rows)
+                                not_compared_order_dependent=tot['amb'],
+                                by_root_pattern_kind={op: dict(success=a, failure=b) for op, (a, b) in sorted(by_op.items())})
+    # vacuity: every pattern family is met by conforming and by non-conforming targets
+    families = ('lit', 'type', 'regex', 'pred', 'm', 'mtruthy', 'and', 'or', 'not', 'list', 'set', 'frozenset', 'tuple', 'dict')
+    if min(tot['ok'], tot['fail'], tot['tme'], tot['foreign']) == 0 or any(min(by_op.get(f, [0, 0])) == 0 for f in families):
+        problems.append('vacuous universe: %r %r' % (tot, by_op))
+    rows = record(check, {'quick': 6000, 'thorough': 40000}[tier], seed)
+    corrupt_selftest(check, rows)
     if tier == 'thorough':
         mconsts = dict(TDepth=1, PDepth=1, Wide='FALSE')
         for name, laws in MUTANTS:
@@ -240,7 +264,7 @@ def main(tier, seed):
             if r['violated'] not in laws:
                 raise vlib.MachineryError('spec mutant %s: expected a violation of %s, TLC says %r' % (name, laws, r['violated']))
             check.extra.setdefault('spec_mutants', {})[name] = r['violated']
-    check.extra['constants'] = consts
+    check.extra['constants'] = universes
     check.assumptions += [
         'strings are drawn from {"", a, b, aa, ab, ba, bb}; Regex semantics are three explicit tables cross-checked against re',
         'an ordering comparison Python itself refuses (TypeError, e.g. "a" > 0) is not a rejection by the matcher: the '
@@ -251,6 +275,8 @@ def main(tier, seed):
         'results are compared with == (the property says "equal"), not by class of the rebuilt containers',
         'alternatives of set / frozenset patterns are hashable leaves; no floats, bytes or user classes',
         'TLC, the Json community module and the codec are trusted']
+    if problems and not check.violations:
+        raise vlib.MachineryError('; '.join(problems))
     return check.finish(rule='TLC enumerates every (pattern, target) pair within the constants: all patterns of the stated '
                         'families up to PDepth x all target values up to TDepth; each is replayed through glom(), '
                         'verify(), matches() and Match(default=); non-trivial = composite pattern and container '
